@@ -97,6 +97,9 @@ func splitDays(out string) [][]string {
 	return days
 }
 
+// c15BeforeVariants: set by an exploration that wants something to happen in the process before the presentations run
+var c15BeforeVariants func()
+
 func checkC15(w *Worker) {
 	w.appInit()
 	bookText := renderBook(c15Book)
@@ -113,6 +116,7 @@ func checkC15(w *Worker) {
 	}
 	present := func(x *Exec, mkLog func(x *Exec) (absLog, string)) {
 		c15ExactAmounts = true
+		c15BeforeVariants = nil
 		ci := x.Choose(len(colours), "config:colour")
 		ti := x.Choose(len(templates), "config:template")
 		sh := x.Choose(2, "config:shorten")
@@ -120,13 +124,7 @@ func checkC15(w *Worker) {
 		logText := renderLog(lg)
 		files := map[string]string{"food.yaml": bookText, "log.yaml": logText}
 		refCase := appCase{Args: []string{"--no-color", "reg"}, Files: files}
-		refRun, ok := refRunCache[logText+"\x00"+bookText]
-		if !ok {
-			refRun = runApp(refCase)
-			refRunCache[logText+"\x00"+bookText] = refRun
-		} else {
-			logRun(refCase, refRun)
-		}
+		refRun := cachedRun(refRunCache, 1<<30, logText+"\x00"+bookText, refCase)
 		ref, err := parseRegister(refRun.Stdout, "default")
 		if err != nil || refRun.Failed {
 			x.Violate("C15|plain-register-failed", fmt.Sprintf("`%s`: %v %s", refCase.shell(), err, refRun.String()), nil)
@@ -146,6 +144,14 @@ func checkC15(w *Worker) {
 			return appCase{Args: args, Files: files}
 		}
 		cDef, cNo, cOnly := mk(nil), mk([]string{"--no-totals"}), mk([]string{"--totals-only"})
+		if c15BeforeVariants != nil {
+			// (an earlier run in the same process: the presentations below start from what it left in memory)
+			c15BeforeVariants()
+			c15BeforeVariants = nil
+			appKeepState = true
+			x.NoConfirm = true // (a single run of the binary cannot reproduce a sequence of runs)
+			defer func() { appKeepState = false }()
+		}
 		rDef, rNo, rOnly := runApp(cDef), runApp(cNo), runApp(cOnly)
 		x.Obs(rDef.Key(), rNo.Key(), rOnly.Key())
 		x.Case(cfgName+"|"+lg.String()+"|"+fmt.Sprint(hash64([]byte(bookText))), len(lg) > 0 && len(lg[0].Entries) > 0)
@@ -313,6 +319,39 @@ func checkC15(w *Worker) {
 				d.Entries = []absIng{{"r1", 1}, {name, -1}, {name + "x", 0.5}}
 			}
 			return absLog{d, {Date: "2021/01/25", Entries: []absIng{{name, 1}}}}, book
+		})
+	})
+	// sequences of runs in one process (a program that uses the commands as a library, the e2e tests): whatever an earlier
+	// run was configured with - colour, shortening, template, date format - the next presentation is the one that was asked for
+	w.Explore("after-an-earlier-run-in-the-same-process", ExploreOpts{ShardDepth: 5}, func(x *Exec) {
+		present(x, func(x *Exec) (absLog, string) {
+			kind := x.Choose(2, "input:kind-of-name") * 2
+			unit := "cheese/gouda/aged/slice/of/the/day/and/more"
+			name := unit[:30]
+			book := "r1:\n  cal: 2\n  fat: -0.5\n"
+			if kind == 2 {
+				book += name + ":\n  " + ("element/" + unit)[:30] + ": 1.5\n  cal: -1\n"
+			}
+			lg := absLog{{Date: "2021/01/24", Entries: []absIng{{"r1", 1}, {name, -1}, {name + "x", 0.5}}}, {Date: "2021/01/25", Entries: []absIng{{name, 1}}}}
+			earlier := [][]string{
+				{"reg"}, {"--no-color", "reg"}, {"reg", "--shorten"}, {"--no-color", "reg", "--shorten"},
+				{"--no-color", "reg", "--internal-template-name", "left-aligned"}, {"reg", "--internal-template-name", "left-aligned", "--shorten"},
+				{"--no-color", "reg", "--use-old-reg-reporter", "--shorten"}, {"reg", "--use-old-reg-reporter"},
+				{"--date-format", "02.01.2006", "reg"}, {"--no-color", "--date-format", "02.01.2006", "reg", "--shorten", "--totals-only"},
+				{"bal"}, {"--no-color", "bal", "-c"}, {"--no-color", "summary", "today"}, {"reg", "-s", "cal"},
+			}
+			e := earlier[x.Choose(len(earlier), "event:earlier-run")]
+			logText := renderLog(lg)
+			if len(e) > 1 && (e[0] == "--date-format" || e[1] == "--date-format") {
+				logText = "24.01.2021:\n  r1: 1\n  " + name + ": -1\n"
+			}
+			c15BeforeVariants = func() {
+				er := runApp(appCase{Args: e, Files: map[string]string{"food.yaml": book, "log.yaml": logText}})
+				if er.Failed || er.Panic != "" {
+					x.Violate("C15|earlier-run-failed", er.String(), nil)
+				}
+			}
+			return lg, book
 		})
 	})
 	// collapse modes of the balance change only the layout: same leaf paths, same amounts (prefix-free food sets)
